@@ -552,6 +552,8 @@ struct C08 : World {
     std::vector<uint64_t> proj_at_sync[8];
     bool have_proj[8] = {false};
     bool bad_event = false; int bad_pgno = 0;
+    // the page as fetched from inside the handler of the last caption event of the current vbi_decode() call, per channel
+    bool ev_in_call[8] = {false}; vbi_char at_event[8][15 * 34]; bool at_event_ok[8] = {false};
     // frame under construction
     int slot[2][2] = {{0x80, 0x80}, {0x80, 0x80}};
     bool full[2] = {false, false};
@@ -578,6 +580,11 @@ struct C08 : World {
     int pgno = ev->ev.caption.pgno;
     if (pgno < 1 || pgno > 8) { g->bad_event = true; g->bad_pgno = pgno; return; }
     g->ev[pgno - 1]++;
+    // fetching from inside the handler is documented as permitted; what is visible now is what the event announces
+    vbi_page pg; vbi_bool ok;
+    { SutScope ss; ok = vbi_fetch_cc_page(g->dec, &pg, pgno, TRUE); }
+    g->ev_in_call[pgno - 1] = true; g->at_event_ok[pgno - 1] = ok;
+    if (ok) memcpy(g->at_event[pgno - 1], pg.text, sizeof g->at_event[pgno - 1]);
   }
 
   static uint64_t cell_key(const Cell& m, bool text) {  // projection of the model that the comparison looks at
@@ -682,13 +689,29 @@ struct C08 : World {
     // fetch all eight pages: cross-talk check (a channel that is not addressed must not change) + sync comparison
     for (int chn = 0; chn < 8 && !s.ctx->failed; chn++) {
       // channels without a script can only change through cross-talk: looked at every 8th frame (cost)
-      if (!s.active[chn] && (s.frames & 7) != 0) continue;
+      if (!s.active[chn] && (s.frames & 7) != 0 && !s.ev_in_call[chn]) continue;
       vbi_page pg;
       vbi_bool ok;
       budget_begin("vbi_fetch_cc_page", 200000);
       { SutScope ss; ok = vbi_fetch_cc_page(s.dec, &pg, chn + 1, TRUE); }
       budget_end();
       if (!ok) { s.ctx->fail("oracle:fetch-failed", "vbi_fetch_cc_page(%d) returned FALSE", chn + 1); return; }
+      if (s.ev_in_call[chn]) {
+        // "A caption event for the channel is raised whenever that visible page changed": what the handler of the last
+        // event of this call saw must be what is visible when vbi_decode() returns - a later change would be a
+        // change of the visible page without an event.
+        s.ev_in_call[chn] = false;
+        s.ctx->count("in_handler_fetches_compared");
+        if (!s.at_event_ok[chn]) { s.ctx->fail("oracle:fetch-failed", "vbi_fetch_cc_page(%d) from inside the caption event handler returned FALSE", chn + 1); return; }
+        for (int i = 0; i < 15 * 34; i++) {
+          const vbi_char &a = pg.text[i], &b = s.at_event[chn][i];
+          if (a.unicode != b.unicode || a.opacity != b.opacity || a.foreground != b.foreground || a.background != b.background ||
+              a.underline != b.underline || a.italic != b.italic || a.flash != b.flash) {
+            s.ctx->fail("oracle:event-stale", "CC page %d: row %d column %d changed (U+%04X -> U+%04X) after the last VBI_EVENT_CAPTION raised for it in this vbi_decode() call: the visible page changed without an event", chn + 1, i / 34, i % 34, b.unicode, a.unicode);
+            return;
+          }
+        }
+      }
       int f = (chn >> 1) & 1;
       bool changed = false;
       for (int i = 0; i < 15 * 34 && !changed; i++) {
